@@ -400,3 +400,36 @@ Fixpoint run_history_memo (tbl : list row) (memo : list (N * cid)) (w : world) (
                           let '(rs, w') := run_history_memo tbl memo' (res_world r) hs' in (r :: rs, w')
   | HEv ev :: hs' => run_history_memo tbl memo (apply_event ev w) hs'
   end.
+
+(* ------------------------------------------------------------------------------------------------------------- *)
+(* one storage call fails while a command is handled (fault injection on the histories)                          *)
+(* ------------------------------------------------------------------------------------------------------------- *)
+(* storage reads a handler performs to fetch the object BEFORE it decides whether the sender may touch it
+   (mapping_command_handlers.go GetMapping; traffic_report_handler.go / socks5_tunnel_handler.go GetPortMapping;
+    http_domain_mapping_repository.go DeleteMapping -> GetMapping) *)
+Definition guard_reads (e : effect) : nat :=
+  match e with EMapGet | EMapDelete | ETraffic | ESocksOpen | EDomDelete => 1 | _ => 0 end.
+(* what the handler answers when that read fails: nothing is decided without the record — fail closed *)
+Definition guard_fail (e : effect) (w : world) : result :=
+  match e with ETraffic => mk true w (* "mapping may have been deleted": returns nil *) | _ => mk false w end.
+
+(* p = position (from 0) of the failing storage call; a fault after the decision can only cut a GRANTED mutation short
+   (the party's own business, checked on the real code by the predicate); the decision itself was taken on true data *)
+Definition exec_faulty (open : bool) (tbl : list row) (w : world) (k : connkind) (cl : claim) (c : cmd) (p : nat) : result :=
+  match find_row tbl (k_type c) (k_resp c) with
+  | None => mk false w
+  | Some r =>
+      match r_route r with
+      | RUnhandled => mk false w
+      | _ => let a := acting r w k cl in
+             if r_auth r && (a =? 0) then refuse (r_eff r) w k
+             else if Nat.ltb p (guard_reads (r_eff r)) then
+               (* `open` = the refuted variant (a seeded breaking change): MappingDelete whose lookup failed falls through to
+                  the repository's delete-by-id without any party check *)
+               match open, r_eff r, k_obj c with
+               | true, EMapDelete, Some i => mk true (with_maps w (remove_map i (w_maps w)))
+               | _, _, _ => guard_fail (r_eff r) w
+               end
+             else run (r_eff r) (r_party r) a w k c
+      end
+  end.
